@@ -42,6 +42,7 @@ from pdfminer.pdftypes import (
     dict_value,
     int_value,
     list_value,
+    resolve1,
     str_value,
     stream_value,
     uint_value,
@@ -1188,7 +1189,7 @@ class PageLabels(NumberTree):
 
         for next, (start, label_dict_unchecked) in enumerate(ranges, 1):
             label_dict = dict_value(label_dict_unchecked)
-            style = label_dict.get("S")
+            style = resolve1(label_dict.get("S"))
             prefix = decode_text(str_value(label_dict.get("P", b"")))
             first_value = int_value(label_dict.get("St", 1))
 
